@@ -389,3 +389,38 @@ func BackendsWellFormed(w *world.World) []world.Violation {
 
 // SeqReplay: per property, re-evaluates one recorded E2 input; returns a description and whether it still violates.
 var SeqReplay = map[string]func(input string) (string, bool){}
+
+// ---------------------------------------------------------------------------------------------
+// state left behind by a connection that died in the middle of a message
+
+// AbortedNeighbour: client 1 sends a proper prefix of a request and disconnects (FIN or RST) while the prefix is parked
+// in its inbound buffer; only after the proxy has closed that connection does client 0 (the victim) send its stream,
+// cut into chunks, over a fresh connection. Whatever the dead connection left behind (pooled buffers, descriptor number,
+// pooled request objects) must not leak into the victim's stream.
+func AbortedNeighbour(prefix []byte, rst bool, victim []Req, cuts []int, readCap int) *world.Scenario {
+	sc := &world.Scenario{Nodes: T3m(), Bound: 0, Family: "aborted-neighbour", Horizon: 2000, ReadCap: readCap, WriteCap: 64, ReuseFds: true, InputEnum: true}
+	var all []byte
+	cs := world.ClientSpec{}
+	for _, r := range victim {
+		all = append(all, r.Bytes...)
+		cs.Reqs = append(cs.Reqs, r.Bytes)
+		cs.Expect = append(cs.Expect, r.Expect)
+	}
+	cs.Chunks = SplitAt(all, cuts...)
+	cs.Chunks[0].Gate = func(w *world.World) bool { return len(w.Clients) > 1 && w.Clients[1].Sock.Closed }
+	ab := world.ClientSpec{Chunks: []world.Chunk{{Data: prefix}}, CloseAfter: 1, CloseRST: rst}
+	sc.Clients = []world.ClientSpec{cs, ab}
+	return sc
+}
+
+// BackendLossMidReply: node A dies after delivering the first bytes of a reply (the rest is lost with the connection);
+// the proxy answers the request with an error, redials on the next request, and that request's reply arrives cut as well.
+func BackendLossMidReply(kind string, cut int, bound int) *world.Scenario {
+	r0, r1 := GetReq(keysA[0]), GetReq(keysA[5])
+	cs := ClientOf([]Req{r0}, true)
+	cs.Chunks = append(cs.Chunks, world.Chunk{Data: r1.Bytes, WaitReplies: 1})
+	cs.Reqs = append(cs.Reqs, r1.Bytes)
+	cs.Expect = append(cs.Expect, r1.Expect)
+	return &world.Scenario{Nodes: T3m(), Bound: bound, Family: "backend-loss-mid-reply", Horizon: 400, ReplyCuts: []int{cut}, ReuseFds: true,
+		Clients: []world.ClientSpec{cs}, Faults: []world.Fault{{Kind: kind, Addr: AddrA, AfterW: 1}}}
+}
